@@ -192,6 +192,44 @@ Theorem C07_cell_ids : forall dims, Forall (fun d => 0 < d) dims ->
 Proof. exact coord_id_index. Qed.
 Print Assumptions C07_cell_ids.
 
+(* ---------------------------------------------------------------- the geometric reading ------- *)
+(* For EVERY dimension vector (any number of axes, sizes >= 1 incl. 1 and 2), torus flag, cell c and radius r:
+   the r-hop ball of the Moore (von Neumann) connection relation is exactly the set of in-grid cells whose
+   Chebyshev (Manhattan) distance from c is <= r, the per-axis distance being min((a-b) mod n, (b-a) mod n)
+   on a torus and |a-b| otherwise (gdist).  Both directions are constructive: a step changes the distance by
+   at most the norm of its offset; `toward` gives a neighbour one nearer (Moore moves all axes, von Neumann one). *)
+Theorem C07_ball_is_metric_ball : forall moore torus dims r c d, good dims c ->
+  ((exists k, (k <= r)%nat /\ ghops (conn_c moore torus dims) k c d) <->
+   good dims d /\ gdist moore torus dims c d <= Z.of_nat r).
+Proof. apply ball_is_metric. vm_compute. reflexivity. Qed.
+Print Assumptions C07_ball_is_metric_ball.
+
+(* ... combined with C07_nbhd_is_ball, about the model's neighbourhood function (the repaired
+   Cell._neighborhood) running on the model's own connection table of the grid (id_conn = conn_of of the table
+   whose observation T2 compares with the implementation's connections), cells named by their position in
+   all_cells: the radius-(S n) neighbourhood of c is exactly the in-grid cells at distance 1..S n, plus c itself
+   iff include_center; and it contains nothing but cells of the grid. *)
+Theorem C07_nbhd_is_metric_ball : forall moore torus dims, Forall (fun d => 0 < d) dims ->
+  forall c, good dims c -> forall n ic,
+  (forall d, good dims d ->
+     (In (coord_id dims d) (nbhd (id_conn moore torus dims) n ic (coord_id dims c)) <->
+      (1 <= gdist moore torus dims c d <= Z.of_nat (S n)) \/ (ic = true /\ d = c))) /\
+  (forall z, In z (nbhd (id_conn moore torus dims) n ic (coord_id dims c)) ->
+     exists d, good dims d /\ z = coord_id dims d).
+Proof. apply nbhd_metric_ball. vm_compute. reflexivity. Qed.
+Print Assumptions C07_nbhd_is_metric_ball.
+
+Example C07_example_metric :
+  good [2; 1; 4] [1; 0; 3] /\ good [2; 1; 4] [0; 0; 1] /\
+  gdist true true [2; 1; 4] [1; 0; 3] [0; 0; 1] = 2 /\ gdist false true [2; 1; 4] [1; 0; 3] [0; 0; 1] = 3 /\
+  gdist false false [2; 1; 4] [1; 0; 3] [0; 0; 1] = 3 /\
+  In (coord_id [2; 1; 4] [0; 0; 1]) (nbhd (id_conn true true [2; 1; 4]) 1 false (coord_id [2; 1; 4] [1; 0; 3])) /\
+  ~ In (coord_id [2; 1; 4] [0; 0; 1]) (nbhd (id_conn false true [2; 1; 4]) 1 false (coord_id [2; 1; 4] [1; 0; 3])).
+Proof.
+  vm_compute. repeat split; try reflexivity; try (intros H; repeat (destruct H as [H|H]; [discriminate|]); destruct H).
+  auto 20.
+Qed.
+
 (* ---------------------------------------------------------------- hex ------------------------ *)
 (* with the even/odd tables and the parity selector regenerated from HexGrid._connect_cells_2d:
    for EVERY cell (i, j) of Z^2, (di, dj) is one of its offsets iff the hexagons of (i, j) and
@@ -265,6 +303,34 @@ Print Assumptions C07_incircle_geometric.
 Theorem C07_delaunay_symmetric : forall pts i j, delaunay_adj pts i j = delaunay_adj pts j i.
 Proof. exact delaunay_adj_sym. Qed.
 Print Assumptions C07_delaunay_symmetric.
+
+(* TRANSLATION VALIDATION of the implementation's triangulation (op Cert: the triangles exported by
+   VoronoiGrid.triangulation, checked by vm_compute in every Cases run): if delaunay_cert accepts them, then
+   i-j is an edge of some exported triangle iff i <> j and some third centroid spans with them a proper circle
+   with no centroid strictly inside (exact integer tests) ... *)
+Theorem C07_voronoi_cert_sound : forall pts tris, delaunay_cert pts tris = true ->
+  forall i j, In i (idxs pts) -> In j (idxs pts) ->
+  (tri_adj tris i j = true <->
+   i <> j /\ exists k, In k (idxs pts) /\ k <> i /\ k <> j /\
+                       empty_circle pts (pnt pts i) (pnt pts j) (pnt pts k) = true).
+Proof. exact cert_sound. Qed.
+Print Assumptions C07_voronoi_cert_sound.
+
+(* ... i.e. (more than two centroids) the certified triangulation has exactly the edges of the specification
+   the connections are compared with *)
+Theorem C07_voronoi_cert_delaunay : forall pts tris,
+  delaunay_cert pts tris = true -> Z.of_nat (length pts) <> 2 ->
+  forall i j, In i (idxs pts) -> In j (idxs pts) -> tri_adj tris i j = delaunay_adj pts i j.
+Proof. exact cert_delaunay. Qed.
+Print Assumptions C07_voronoi_cert_delaunay.
+
+Example C07_example_cert :
+  let pts := [(0, 0); (4, 0); (0, 4); (4, 4); (2, 1)] in
+  delaunay_cert pts [(4, 0, 1); (4, 1, 3); (4, 3, 2); (4, 2, 0)] = true /\
+  delaunay_cert pts [(4, 0, 1); (4, 1, 3); (4, 3, 2)] = false /\
+  delaunay_cert pts [(0, 1, 3); (0, 3, 2); (4, 0, 1)] = false /\
+  tri_adj [(4, 0, 1); (4, 1, 3); (4, 3, 2); (4, 2, 0)] 2 0 = true.
+Proof. vm_compute. repeat split; reflexivity. Qed.
 
 (* non-vacuity *)
 Example C07_example_grid :
